@@ -374,27 +374,34 @@ def keeps_asserted(before, after, perm) -> bool:
 
 
 # =============================================================================== coverage, measured afresh
+_MEASURED: dict = {}
+
+
 def measure(test_cases):
-    """Fresh real executor, fresh chromosomes, fresh real coverage functions.  Returns
-    (line ids, branch outcomes, line coverage value, branch coverage value)."""
+    """Fresh real executor, fresh chromosomes (clones), fresh real coverage functions: every test case is executed
+    once.  Returns (line ids, branch outcomes, line coverage value, branch coverage value).  Results are remembered
+    per rendered source text of the list of test cases (the subject has no state that outlives an execution)."""
+    key = tuple(t.to_code() for t in test_cases)
+    if key in _MEASURED:
+        return _MEASURED[key]
+    import pynguin.ga.testsuitechromosome as tsc
+
     w = world()
     executor = TestCaseExecutor(w.sp)
-    lines, outcomes = set(), set()
+    suite = tsc.TestSuiteChromosome()
     for t in test_cases:
-        trace = executor.execute(t).execution_trace
+        suite.add_test_case_chromosome(tcc.TestCaseChromosome(test_case=t.clone()))
+    line_value = ff.TestSuiteLineCoverageFunction(executor).compute_coverage(suite)
+    branch_value = ff.TestSuiteBranchCoverageFunction(executor).compute_coverage(suite)
+    lines, outcomes = set(), set()
+    for chromosome in suite.test_case_chromosomes:
+        trace = chromosome.get_last_execution_result().execution_trace
         lines |= set(trace.covered_line_ids)
         outcomes |= {("code", c) for c in trace.executed_code_objects if c in w.sp.branch_less_code_objects}
         outcomes |= {("pred", p, True) for p, d in trace.true_distances.items() if d == 0.0}
         outcomes |= {("pred", p, False) for p, d in trace.false_distances.items() if d == 0.0}
-    import pynguin.ga.testsuitechromosome as tsc
-
-    values = []
-    for cls in (ff.TestSuiteLineCoverageFunction, ff.TestSuiteBranchCoverageFunction):
-        suite = tsc.TestSuiteChromosome()
-        for t in test_cases:
-            suite.add_test_case_chromosome(tcc.TestCaseChromosome(test_case=t.clone()))
-        values.append(cls(TestCaseExecutor(w.sp)).compute_coverage(suite))
-    return frozenset(lines), frozenset(outcomes), values[0], values[1]
+    _MEASURED[key] = (frozenset(lines), frozenset(outcomes), line_value, branch_value)
+    return _MEASURED[key]
 
 
 def minimize(suite, strategy: int, direction: int):
